@@ -332,7 +332,11 @@ def prune_blocks(rep):
             n_blocks += 1
             key = norm(d.args[0])
             # the conditions under which the discard runs (enclosing tests and preceding guard clauses), as a flat conjunction
-            flat = [(norm(c_).replace(" ", ""), s_) for c_, s_ in guard_atoms(guards_of(pm, d, fi.node))]
+            atoms_ = guard_atoms(guards_of(pm, d, fi.node))
+            # a failed `a and b` / passed `a or b` that reached this point (e.g. an earlier guard clause that returned) only restricts when the discard runs:
+            # it cannot make the species be pruned in a state where it still has reactions
+            atoms_ = [(c_, s_) for c_, s_ in atoms_ if not isinstance(c_, ast.BoolOp)]
+            flat = [(norm(c_).replace(" ", ""), s_) for c_, s_ in atoms_]
             need_c = {(f"self.species_to_in_edges.get({key})", False), (f"self.species_to_out_edges.get({key})", False)}
             extra = [f for f in flat if f not in need_c and f[0] not in ("prune_orphans",) and not f[0].endswith("notinself.edges") and not f[0].endswith("notinself.species")
                      and not (f[0].endswith("inself.edges") and f[1]) and not (f[0].endswith("inself.species") and f[1])]
